@@ -409,6 +409,48 @@ struct WorkerSlot<C> {
     current: Mutex<Option<(Instant, C)>>,
     abandoned: AtomicBool,
     done: AtomicBool,
+    /// CPU clock of the worker thread (0 = unknown) and its reading when the current case started (ns)
+    cpu_clock: std::sync::atomic::AtomicI64,
+    cpu_at_start: AtomicU64,
+}
+
+// CPU time of another thread (Linux): a per-case deadline is a statement about the work a case does, not about how
+// many other processes share the machine. A healthy case that got 1/12 of a core at load 200 was once reported as
+// non-termination by the wall-clock watchdog (DESIGN §10); a hang burns CPU, so the watchdog now asks for the
+// deadline in CPU time of the worker thread, and falls back to 25x the deadline in wall time for a case that blocks.
+pub mod cpuclock {
+    #[repr(C)]
+    pub struct Timespec {
+        pub tv_sec: i64,
+        pub tv_nsec: i64,
+    }
+    extern "C" {
+        pub fn pthread_self() -> usize;
+        pub fn pthread_getcpuclockid(thread: usize, clock_id: *mut i32) -> i32;
+        pub fn clock_gettime(clock_id: i32, tp: *mut Timespec) -> i32;
+    }
+    /// clock id of the calling thread's CPU-time clock, -1 if unavailable (0 is CLOCK_REALTIME and never returned here)
+    pub fn own_clock() -> i64 {
+        let mut id: i32 = 0;
+        let r = unsafe { pthread_getcpuclockid(pthread_self(), &mut id) };
+        if r == 0 && id != 0 {
+            id as i64
+        } else {
+            -1
+        }
+    }
+    pub fn read_ns(clock: i64) -> Option<u64> {
+        if clock == 0 || clock == -1 {
+            return None;
+        }
+        let mut ts = Timespec { tv_sec: 0, tv_nsec: 0 };
+        let r = unsafe { clock_gettime(clock as i32, &mut ts) };
+        if r == 0 {
+            Some(ts.tv_sec as u64 * 1_000_000_000 + ts.tv_nsec as u64)
+        } else {
+            None
+        }
+    }
 }
 
 struct Shared<C> {
@@ -433,6 +475,8 @@ fn worker_loop<C: Serialize + Clone + Send + 'static>(
     section: String,
 ) {
     heathcliff_thread_init();
+    let my_clock = cpuclock::own_clock();
+    slot.cpu_clock.store(my_clock, Ordering::SeqCst);
     loop {
         if sh.stop.load(Ordering::SeqCst) || slot.abandoned.load(Ordering::SeqCst) {
             break;
@@ -463,6 +507,7 @@ fn worker_loop<C: Serialize + Clone + Send + 'static>(
             if slot.abandoned.load(Ordering::SeqCst) {
                 return;
             }
+            slot.cpu_at_start.store(cpuclock::read_ns(my_clock).unwrap_or(0), Ordering::SeqCst);
             *slot.current.lock().unwrap() = Some((Instant::now(), c.clone()));
             let out = match guard(|| check(&c)) {
                 Ok(o) => o,
@@ -594,7 +639,7 @@ impl<C: Serialize + DeserializeOwned + Clone + Send + 'static> AnySection for E1
         let budget = rep.cfg.remaining().mul_f64(self.budget_share.clamp(0.01, 1.0));
         let mut slots: Vec<Arc<WorkerSlot<C>>> = vec![];
         let spawn = |slots: &mut Vec<Arc<WorkerSlot<C>>>| {
-            let slot = Arc::new(WorkerSlot { current: Mutex::new(None), abandoned: AtomicBool::new(false), done: AtomicBool::new(false) });
+            let slot = Arc::new(WorkerSlot { current: Mutex::new(None), abandoned: AtomicBool::new(false), done: AtomicBool::new(false), cpu_clock: std::sync::atomic::AtomicI64::new(0), cpu_at_start: AtomicU64::new(0) });
             slots.push(slot.clone());
             let (sh, check, rep, name) = (sh.clone(), self.check.clone(), rep.clone(), name.clone());
             std::thread::Builder::new()
@@ -618,7 +663,16 @@ impl<C: Serialize + DeserializeOwned + Clone + Send + 'static> AnySection for E1
                 all_done = false;
                 let cur = s.current.lock().unwrap().clone();
                 if let Some((t, c)) = cur {
-                    if t.elapsed() > self.deadline {
+                    let wall = t.elapsed();
+                    let over = wall > self.deadline && {
+                        // still the same case? (the worker may have moved on between the two reads: then the next tick decides)
+                        let cpu_used = cpuclock::read_ns(s.cpu_clock.load(Ordering::SeqCst)).map(|now| Duration::from_nanos(now.saturating_sub(s.cpu_at_start.load(Ordering::SeqCst))));
+                        match cpu_used {
+                            Some(used) => used > self.deadline || wall > self.deadline * 25,
+                            None => wall > self.deadline * 4,
+                        }
+                    };
+                    if over && s.current.lock().unwrap().as_ref().map(|(t2, _)| *t2 == t).unwrap_or(false) {
                         s.abandoned.store(true, Ordering::SeqCst);
                         hung += 1;
                         let key = (self.hang_key)(&c);
